@@ -32,6 +32,7 @@ type indexFetcher struct {
 	txn           datastore.Txn
 	col           client.Collection
 	indexFilter   *mapper.Filter
+	docFilter     *mapper.Filter
 	mapping       *core.DocumentMapping
 	indexedFields []client.FieldDefinition
 	fieldsByID    map[uint32]client.FieldDefinition
@@ -66,6 +67,7 @@ func newIndexFetcher(
 		fieldsByID: fieldsByID,
 		execInfo:   execInfo,
 		ordering:   ordering,
+		docFilter:  docFilter,
 	}
 
 	fieldsToCopy := make([]mapper.Field, 0, len(indexDesc.Fields))
